@@ -39,6 +39,8 @@ pub struct MFrame {
     pub tags: Option<Vec<String>>,
     pub labels: Option<Vec<String>>,
     pub acl_allow: Option<bool>,
+    /// caller-supplied extra metadata (Some = known exactly; chunk children: not predicted)
+    pub extra: Option<std::collections::BTreeMap<String, String>>,
     /// payload stored whole (not a chunk parent)
     pub whole: bool,
     pub ts_candidates: Vec<i64>,
